@@ -252,7 +252,8 @@ Hypothesis IHq : forall l e d s, wfm s -> CI s l -> npo s (cq l e d s) (CQ l).
 
 Lemma c_quote l x s : wfm s -> CI s l -> npo s (f_quote l x s) (CQ l).
 Proof.
-  intros W HI. unfold f_quote. eapply npost_bind; [apply np_maybe_put_cell_m, W|].
+  intros W HI. unfold f_quote. destruct (negb (cell_is_datum x)); [apply npost_fail, W|].
+  eapply npost_bind; [apply np_maybe_put_cell_m, W|].
   intros v s1 W1 G1 Hv. apply npost_ret; [exact W1|]. pose proof (CI_grow _ _ _ G1 HI) as HI1.
   split; [ci|lens].
 Qed.
@@ -410,6 +411,7 @@ Proof.
       apply np_bind_lift; [exact W|apply car_opan|intros x _]. apply IHe; assumption.
     + cbv zeta. eapply npost_bind; [apply c_elems; assumption|].
       intros [[l1 count] tailc] s1 W1 G1 [HI1 L1]. cbn [fst] in HI1, L1. cbv beta iota.
+      destruct (negb (cell_is_datum tailc)); [apply npost_fail, W1|].
       eapply npost_bind; [apply np_maybe_put_cell_m, W1|]. intros tv s2 W2 G2 Htv. cbv zeta.
       apply npost_ret; [exact W2|]. pose proof (CI_grow _ _ _ G2 HI1) as HI2.
       destruct (c_conses s2 count (N.to_nat count) 0 (emit (emit_op l1 OPushImmediate) tv)) as [H1 H2]; [ci|].
